@@ -63,8 +63,19 @@ def build_table(path, maxlen):
 
 
 def rand_series(rng, n):
-    kind = rng.integers(8)
-    if kind == 5:        # near ties: neighbours that differ by a few ulps up to 1e-6 relative (but are not equal)
+    kind = rng.integers(10)
+    if kind == 8:        # a large first sample followed by movements far below its ulp (x - x[0] is not exact)
+        x = rng.standard_normal(n) * 10.0 ** rng.uniform(-17, -9)
+        x[0] = float(rng.choice([1.0, -1.0, 1e9, -3.7e5]))
+        if rng.integers(2):
+            x[1:] += float(rng.choice([1.0, -2.5]))            # ... or movements of a few ulps on an offset of the other sign
+    elif kind == 9:      # neighbours one or two ulps apart
+        base = rng.choice([1.0, -1.0, 3.3e-7, 1e12]) * np.ones(n)
+        x = base.copy()
+        for j in range(1, n):
+            x[j] = np.nextafter(x[j - 1], x[j - 1] + rng.choice([-1.0, 1.0]) * abs(x[j - 1]) * rng.integers(1, 3))
+        x[0] = -x[0] if rng.integers(2) else x[0]
+    elif kind == 5:        # near ties: neighbours that differ by a few ulps up to 1e-6 relative (but are not equal)
         x = np.repeat(rng.standard_normal(n), rng.integers(1, 4, size=n))[:n]
         x = x * (1.0 + rng.choice([0.0, 1e-15, 1e-12, 1e-9, 1e-7, 1e-6], size=n) * rng.choice([-1, 1], size=n))
     elif kind == 6:      # tiny amplitudes (1e-9 .. 1e-12) and slowly varying crests
